@@ -90,6 +90,9 @@ def showOut : Out → String
   | .val v => showOptVal v
   | .nat n => toString n
 
+/-- White-box state printed after every answer: the first 64 buffer cells, `read`, `write`, `size`. -/
+def showState (s : St) : String := s!"b{showNatList (s.buf.take 64)} r{s.read} w{s.write} n{s.size}"
+
 def stepLine (s : St) (toks : List String) : St × String :=
   match toks with
   -- capacity 0 is legal to construct: Offer drops everything, Poll is empty, ForceOffer panics
